@@ -102,6 +102,11 @@ def conserveApply (src dst : List Rat) (data : List Rat) : List (Option Rat) :=
     let ndp := sum fdp
     if ndp = 0 then none else some (dot data fdp / ndp))
 
+/-- `(weights * data[:, None]).sum(0)`: the interpolated values of one column of data; `data` may be shorter than
+the source axis (`weights[:data.shape[0]]` in the GEOS-Chem `interpSigma`) -/
+def linearApply (extrapolate : Bool) (xs nxs data : List Rat) : List Rat :=
+  (weightMatrix extrapolate xs nxs).map (fun w => dot (w.take data.length) data)
+
 open Wire
 
 def run : List String → String
@@ -112,6 +117,13 @@ def run : List String → String
       else if !(isAsc x || isDesc x) then "err nonmonotone"
       else s!"ok {showRows showRat (weightMatrix (ex == "1") x n)}"
     | _, _ => "err parse"
+  | ["linear", ex, xs, nxs, data] =>
+    match parseList parseRat xs, parseList parseRat nxs, parseList parseRat data with
+    | some x, some n, some d =>
+      if x.length < 2 then "err short"
+      else if !(isAsc x || isDesc x) then "err nonmonotone"
+      else s!"ok {showList showRat (linearApply (ex == "1") x n d)}"
+    | _, _, _ => "err parse"
   | ["sigma", src, dst] =>
     match parseList parseRat src, parseList parseRat dst with
     | some s, some d =>
